@@ -58,8 +58,10 @@ func (fs flagSpec) String() string {
 	return strings.Join(p, ",")
 }
 
+// the codec compresses whatever frame carries the flag (the mutators never set it on STARTUP, OPTIONS or READY, but the
+// bundled server flags every response once compression is negotiated, READY included); only STARTUP must never be compressed
 func compressibleKind(kind string) bool {
-	return kind != "Startup" && kind != "Options" && kind != "Ready"
+	return kind != "Startup"
 }
 
 func compressionsFor(kind string, v primitive.ProtocolVersion) []string {
@@ -432,15 +434,28 @@ func sweepCases(rnd *rand.Rand, thorough bool, emit func(gc genCase)) {
 		}
 		// columns that share the table name but not the keyspace, the keyspace but not the table, or differ only in the
 		// last column: the global-table-spec decision must look at both names of every column
-		for variant := 0; variant < 3; variant++ {
+		for variant := 0; variant < 6; variant++ {
 			tc := columnsOf([]datatype.DataType{datatype.Int, datatype.Varchar, datatype.Int}, true)
 			switch variant {
 			case 0:
 				tc[1].Keyspace, tc[2].Keyspace = "ks1", "ks2"
 			case 1:
 				tc[1].Table = "t1"
-			default:
+			case 2:
 				tc[2].Keyspace = "other"
+			case 3:
+				// different tables whose names coincide once keyspace and table are joined with a separator
+				tc[0].Keyspace, tc[0].Table = "a.b", "c"
+				tc[1].Keyspace, tc[1].Table = "a", "b.c"
+				tc[2].Keyspace, tc[2].Table = "a.b", "c"
+			case 4:
+				tc[0].Keyspace, tc[0].Table = "ab", "c"
+				tc[1].Keyspace, tc[1].Table = "a", "bc" // same concatenation
+				tc[2].Keyspace, tc[2].Table = "ab", "c"
+			default:
+				tc[0].Keyspace, tc[0].Table = "KS", "t"
+				tc[1].Keyspace, tc[1].Table = "ks", "T" // differ in case only
+				tc[2].Keyspace, tc[2].Table = "KS", "t"
 			}
 			add(v, fmt.Sprintf("table-spec variant=%d", variant), "none", plainFrame(v, 5, &message.RowsResult{Metadata: &message.RowsMetadata{ColumnCount: 3, Columns: tc}, Data: message.RowSet{make(message.Row, 3)}}))
 			add(v, fmt.Sprintf("table-spec variant=%d", variant), "none", plainFrame(v, 5, &message.PreparedResult{PreparedQueryId: []byte{1}, ResultMetadataId: resultMetadataIdFor(v),
